@@ -196,8 +196,8 @@ def trace_runs(ctx):
         for t in times:
             kwnruns.run(model, t, solver, max_steps=cap)
         out.append((tag, model, log))
-    T = 723.15 + ctx.rng.uniform(-20, 20)
-    x0 = 4e-3 * ctx.rng.uniform(0.8, 1.2)
+    T = 723.15 - ctx.rng.uniform(0, 5)
+    x0 = 4e-3 * ctx.rng.uniform(1.0, 1.1)
     if not ctx.thorough:
         go('AlZr/euler/dislocations/2-solves', kwnruns.build_binary(x0=x0, T=T), [3600 * 2, 3600 * 3], 'euler', None)
         go('AlZr/rk4/grain-boundaries', kwnruns.build_binary(x0=x0, T=T, site='grain boundaries', gbEnergy=0.15), [3600.0], 'rk4', 150)
